@@ -8,6 +8,8 @@ package main
 import (
 	"bytes"
 	"fmt"
+	"google.golang.org/protobuf/types/descriptorpb"
+	"google.golang.org/protobuf/types/known/structpb"
 	"os"
 	"os/exec"
 	"reflect"
@@ -518,6 +520,82 @@ func scheduleScenarios(r *ev.Run, t *gcore.Type) {
 	}
 }
 
+// plainHistories: messages WITHOUT fast-marshal methods (csproto hands them to the owning runtime, which keeps size
+// caches in the message and its sub-messages). All histories of length <= 4 over {csproto.Size, csproto.Marshal,
+// runtime Size, grow a sub-message, shrink a sub-message}; after every step csproto.Marshal of the message must equal
+// what the runtime produces for a deep copy of its current contents.
+func plainHistories(r *ev.Run) {
+	type plain struct {
+		name   string
+		mk     func() proto.Message
+		grow   func(m proto.Message)
+		shrink func(m proto.Message)
+	}
+	subjects := []plain{
+		{"structpb.Value{list}", func() proto.Message {
+			l, _ := structpb.NewList([]any{"a", 2.0})
+			return structpb.NewListValue(l)
+		}, func(m proto.Message) {
+			l := m.(*structpb.Value).GetListValue()
+			l.Values[0] = structpb.NewStringValue(l.Values[0].GetStringValue() + strings.Repeat("b", 70))
+		}, func(m proto.Message) {
+			l := m.(*structpb.Value).GetListValue()
+			l.Values[0] = structpb.NewStringValue("")
+		}},
+		{"descriptorpb.DescriptorProto{nested}", func() proto.Message {
+			return &descriptorpb.DescriptorProto{Name: proto.String("M"), NestedType: []*descriptorpb.DescriptorProto{{Name: proto.String("N")}}}
+		}, func(m proto.Message) {
+			n := m.(*descriptorpb.DescriptorProto).NestedType[0]
+			n.Name = proto.String(n.GetName() + strings.Repeat("N", 130))
+		}, func(m proto.Message) {
+			m.(*descriptorpb.DescriptorProto).NestedType[0].Name = proto.String("")
+		}},
+	}
+	ops := []string{"csproto.Size", "csproto.Marshal", "runtime.Size", "grow", "shrink"}
+	var hist int64
+	for _, sj := range subjects {
+		var dfs func(h []int)
+		dfs = func(h []int) {
+			if len(h) > 0 {
+				m := sj.mk()
+				for _, o := range h {
+					switch ops[o] {
+					case "csproto.Size":
+						_ = csproto.Size(m)
+					case "csproto.Marshal":
+						_, _ = csproto.Marshal(m)
+					case "runtime.Size":
+						_ = proto.Size(m)
+					case "grow":
+						sj.grow(m)
+					case "shrink":
+						sj.shrink(m)
+					}
+				}
+				hist++
+				want, _ := proto.MarshalOptions{Deterministic: true}.Marshal(proto.Clone(m))
+				got, err := csproto.Marshal(m)
+				if err != nil || !bytes.Equal(got, want) {
+					names := make([]string, len(h))
+					for i, o := range h {
+						names[i] = ops[o]
+					}
+					r.Fail("C09/plain-message-history/"+sj.name, sj.name+" :: "+strings.Join(names, ";"), map[string]any{"history": names, "error": fmt.Sprint(err), "got": fmt.Sprintf("%x", got), "want": fmt.Sprintf("%x", want)})
+					return
+				}
+			}
+			if len(h) == 4 {
+				return
+			}
+			for o := range ops {
+				dfs(append(append([]int{}, h...), o))
+			}
+		}
+		dfs(nil)
+	}
+	r.AddTo("plain_message_histories", hist)
+}
+
 func main() {
 	r := ev.Start("C09", "model_checking")
 	depth := 4
@@ -549,6 +627,7 @@ func main() {
 		r.AddTo("histories/"+t.String(), e.leaves)
 		scheduleScenarios(r, t)
 	}
+	plainHistories(r)
 	racePass(r)
 	runtime.GC()
 	r.States(nStates)
